@@ -207,6 +207,8 @@ func runC12(c *hx.Ctx) {
 			c.Stat("scenarios", 1)
 		}
 	}
+	// the dying client's own queue is full and it is subscribed to its own will topic: every other observer still gets the will
+	ownQueueFull(o, c, true)
 	// clean DISCONNECT: no will, whatever the observers do
 	{
 		n := o.scn("c12 clean disconnect: no will")
